@@ -137,7 +137,8 @@ func (x *fnCtx) lookupName(env *specEnv, name string) (*Val, bool) {
 		for _, td := range x.con.Traces {
 			if td.As == name {
 				if t := x.bindType(td); t != nil {
-					v := freshVal(t, "unbound."+name, false)
+					// the call did not happen on this path: the zero value ("no result, no error")
+					v := zeroVal(t)
 					env.st.ghost[name] = v
 					return v, true
 				}
@@ -475,7 +476,26 @@ func (x *fnCtx) pkgName() string {
 	return ""
 }
 
+// typedLoad adds the type invariants (0 <= len <= cap, ...) of a value read from the heap by a
+// contract expression; they hold in every well-typed heap.
+func (x *fnCtx) typedLoad(env *specEnv, v *Val) *Val {
+	for _, l := range v.L {
+		if l.hasBV {
+			return v
+		}
+	}
+	for _, f := range rangeFacts(v) {
+		env.st.assume(f)
+	}
+	return v
+}
+
 func (x *fnCtx) specField(env *specEnv, base *Val, field string) *Val {
+	v := x.specField0(env, base, field)
+	return x.typedLoad(env, v)
+}
+
+func (x *fnCtx) specField0(env *specEnv, base *Val, field string) *Val {
 	t := base.T
 	if p, ok := t.Underlying().(*types.Pointer); ok {
 		el := p.Elem()
